@@ -280,8 +280,9 @@ def c06c(chk):
                         r = op_local(rv["r"])
                         sl2, info2 = cl.slice_locals(rv["r"], through_calls=False)
                         div_ok = 1 in sl2 and not info2["binops"]
-            ok = cap_ok and whole and div_ok
-            why = "captures the sum taken before the loop=%s, iterates every element=%s, element = element / sum=%s" % (cap_ok, whole, div_ok)
+            uncond = not list(f.switches()) and f.postdominates(fe[0][0], 0)
+            ok = cap_ok and whole and div_ok and uncond
+            why = "captures the sum taken before the loop=%s, iterates every element=%s, element = element / sum=%s, unconditional (no early return / branch around the division)=%s" % (cap_ok, whole, div_ok, uncond)
         chk.ob("C06.c", "normalize/divides-every-element-by-prior-sum", ok, f.loc(), why)
     s = chk.fn(SP + "sum")
     if s is not None:
